@@ -24,15 +24,10 @@ ASSUMPTIONS = [
     'these diagonal patterns is c*T',
 ]
 OPEN_STATEMENTS = [
-    'jw_exact / jw_majorana_exact / jw_one_body_sound are proved under the decidable hypothesis "exact regime" '
+    'jw_exact / jw_majorana_exact / jw_one_body_sound / jw_two_body_sound / jw_interaction_op_sound / jw_dch_sound are proved under the decidable hypothesis "exact regime" '
     '(no non-zero value deleted by the |v| < EQ_TOLERANCE test of +=); without it the statements are false by '
     'design of the library; the hypothesis is evaluated by the Model on every generated input and counted in the '
     'distribution (theorem-hypothesis exact-regime)',
-    'jw_two_body_sound (jordan_wigner_two_body denotes c a+_p a+_q a_r a_s + h.c. for all p,q,r,s): NOT proved; '
-    'covered by exact correspondence + Spec oracle on every index tuple below the enumeration bound (all coincidence '
-    'patterns and orders; the pattern histogram is in the evidence) and random tuples with indices < 10',
-    'jw_interaction_op_sound, jw_dch_sound (the symmetrised-coefficient loops equal jw of the tensor formula): NOT '
-    'proved; correspondence + Spec oracle against the tensor formula + exact comparison with the FermionOperator path',
     'reverse_jw_left_inverse (normal_ordered(reverse_jw(jw A)) = normal_ordered A): NOT proved; correspondence of the '
     'reverse transform + Spec oracle (the returned FermionOperator acts like the QubitOperator) + exact round trips',
     'linearity / multiplicativity / dagger-compatibility of jordan_wigner are consequences of jw_exact in the Spec '
@@ -436,7 +431,8 @@ def stream_tensors(ctx):
         jQ = enc_op('qubit', Q.terms)
         b.add('jordan_wigner(InteractionOperator)', case, jQ,
               {'op': 'c04.iop', 'n': n, 'constant': const, 'one': one, 'two': two},
-              oracle('fermion', n, ['iop', n, const, one, two], jQ))
+              oracle('fermion', n, ['iop', n, const, one, two], jQ),
+              regime_req={'op': 'c04.iop_ok', 'n': n, 'constant': const, 'one': one, 'two': two})
         ok, QF = call(st, 'jordan_wigner(get_fermion_operator(iop))', case,
                       lambda: jw(of.transforms.get_fermion_operator(iop)))
         if ok and canon_nz(jQ) != canon_nz(enc_op('qubit', QF.terms)):
@@ -477,7 +473,8 @@ def stream_tensors(ctx):
         # Spec: T and V as given to the constructor (sum over all ordered pairs, n_p n_p = n_p)
         b.add('jordan_wigner(DiagonalCoulombHamiltonian)', case, jQ,
               {'op': 'c04.dch', 'n': n, 'constant': jc, 'one': j1, 'two': j2},
-              oracle('fermion', n, ['dch', n, to_gq(const), flat(one), flat(two)], jQ))
+              oracle('fermion', n, ['dch', n, to_gq(const), flat(one), flat(two)], jQ),
+              regime_req={'op': 'c04.dch_ok', 'n': n, 'constant': jc, 'one': j1, 'two': j2})
         ok, QF = call(st, 'jordan_wigner(get_fermion_operator(dch))', case,
                       lambda: jw(of.transforms.get_fermion_operator(dch)))
         if ok and canon_nz(jQ) != canon_nz(enc_op('qubit', QF.terms)):
@@ -613,3 +610,79 @@ def stream_jellium(ctx):
 def run(ctx):
     return [stream_fermion(ctx), stream_helpers(ctx), stream_tensors(ctx), stream_reverse(ctx),
             stream_jellium(ctx)]
+
+
+# ---------------------------------------------------------------- replay of a recorded failing input
+
+def _op_from_json(of, cls, jop):
+    from common import dec_term, gq_to_complex
+    C = {'fermion': of.FermionOperator, 'qubit': of.QubitOperator}[cls]
+    op = C()
+    for t, c in jop:
+        op += C(dec_term(cls, t), gq_to_complex(c))
+    return op
+
+
+def _arr(lst, shape):
+    from common import gq_to_complex
+    return numpy.array([gq_to_complex(c) for c in lst], dtype=complex).reshape(shape)
+
+
+def impl_output(ctx, case):
+    """re-run the implementation on a recorded case -> protocol operator (or None if not replayable)"""
+    import importlib
+    from common import gq_to_complex, dec_term
+    of = ctx.of
+    jw = of.transforms.jordan_wigner
+    fn = case.get('fn')
+    if fn == 'jordan_wigner' and 'fermion' in case:
+        f = case['fermion']
+        if f and not isinstance(f[0][0], list) or (f and len(f) == 2 and isinstance(f[1], int)):
+            f = [[f[0], [f[1], 1, 0, 1]]]
+        return enc_op('qubit', jw(_op_from_json(of, 'fermion', f)).terms)
+    if fn == 'jordan_wigner' and 'majorana' in case:
+        f = case['majorana']
+        if len(f) == 2 and isinstance(f[1], int):
+            f = [[[[i, 0] for i in f[0]], [f[1], 1, 0, 1]]]
+        M = of.MajoranaOperator.from_dict({tuple(i for i, _ in t): gq_to_complex(c) for t, c in f})
+        return enc_op('qubit', jw(M).terms)
+    if fn == 'jordan_wigner' and 'interaction_operator' in case:
+        d = case['interaction_operator']
+        n = d['n']
+        iop = of.InteractionOperator(gq_to_complex(d['constant']), _arr(d['one'], (n, n)), _arr(d['two'], (n,) * 4))
+        return enc_op('qubit', jw(iop).terms)
+    if fn == 'jordan_wigner' and 'diagonal_coulomb' in case:
+        d = case['diagonal_coulomb']
+        n = d['n']
+        dch = of.DiagonalCoulombHamiltonian(_arr(d['one'], (n, n)), numpy.real(_arr(d['two'], (n, n))).copy(),
+                                            gq_to_complex(d['constant']).real)
+        return enc_op('qubit', jw(dch).terms)
+    jwmod = importlib.import_module('openfermion.transforms.opconversions.jordan_wigner')
+    if fn == 'jordan_wigner_one_body':
+        return enc_op('qubit', jwmod.jordan_wigner_one_body(case['p'], case['q'], gq_to_complex(case['c'])).terms)
+    if fn == 'jordan_wigner_two_body':
+        return enc_op('qubit', jwmod.jordan_wigner_two_body(*case['pqrs'], gq_to_complex(case['c'])).terms)
+    if fn == 'reverse_jordan_wigner':
+        return enc_op('fermion', of.transforms.reverse_jordan_wigner(_op_from_json(of, 'qubit', case['qubit'])).terms)
+    return None
+
+
+def replay(ctx, payload):
+    """True: the recorded input no longer fails; False: still fails; None: not replayable"""
+    v = payload.get('violation')
+    if not v:
+        return None
+    case, detail = v.get('input', {}), v.get('detail', {})
+    req = detail.get('request')
+    try:
+        out = impl_output(ctx, case)
+    except ERRS:
+        return False
+    if out is None or not req:
+        return None
+    req = dict(req)
+    if case.get('fn') == 'reverse_jordan_wigner':
+        req['A'] = ['op', out]
+    else:
+        req['Q'] = out
+    return bool(ctx.driver.one(req)['eq'])
